@@ -249,7 +249,10 @@ def impl(case, aux):
         test = guard % ((b, s) if guard.count('%d') == 1 else (b, b, s))
         case.meta['tex'] = test
         try:
-            txt = parse_doc('\\newcounter{w}\\setcounter{w}{%d}\\whiledo{%s}{\\stepcounter{w}X}DONE' % (a, test))
+            # the body may itself use \\ifthenelse / a nested \\whiledo (they toggle the same math-disabling switch)
+            body = rng.choice(['\\stepcounter{w}X', '\\stepcounter{w}\\ifthenelse{\\isodd{\\value{w}} \\or \\( 1<2 \\)}{X}{Y}',
+                               '\\stepcounter{w}X\\setcounter{v}{0}\\whiledo{\\( \\value{v}<2 \\)}{\\stepcounter{v}}'])
+            txt = parse_doc('\\newcounter{w}\\newcounter{v}\\setcounter{w}{%d}\\whiledo{%s}{%s}DONE' % (a, test, body))
         except Exception as e:
             return canon_exc(e)
         return 'iters:%d:%d' % (txt.count('X'), txt.count('DONE'))
